@@ -16,7 +16,10 @@ RULE = ("stateless schedule exploration of the real threads {k submitters, state
         "answer is a deviation): k = 1..2 submitters (thorough 3) x 1..2 messages each (send_message and "
         "send_messages; 3 each against a 96-byte send-buffer limit) x inbound traffic {none, one DWR, one DWR / one application message "
         "sent when the peer sees the first outbound byte, one application message} x send-buffer limit {default, 96, 40 "
-        "bytes}; every schedule/answer pattern with <= d deviations (d = 1 quick; thorough d = 2 on k = 1). A "
+        "bytes}; every schedule/answer pattern with <= d deviations (d = 1 quick; thorough d = 2 on k = 1); message "
+        "forms {DiameterRequest, DiameterAnswer} everywhere and {loaded answer, loaded request, converted, constructed "
+        "generic answer, constructed generic request} at d = 0 (5 per submitter, both roles, send_message and "
+        "send_messages); the SCTP transport classes over a fake pysctp socket (3 scenarios, thorough 7). A "
         "state = one executed schedule")
 ASSUMPTIONS = [
     "scheduling points as in C04 (synchronisation/socket/selector operations + shared-attribute source lines)",
@@ -26,10 +29,32 @@ ASSUMPTIONS = [
 ]
 
 
-def make_message(tag, i):
-    """Distinct application answers/requests of 44..60 bytes, built with the library (public API)."""
-    from bromelia.base import DiameterAnswer, DiameterRequest
+def make_message(tag, i, forms="typed"):
+    """Distinct application answers/requests of 44..60 bytes, built with the library (public API).
+    forms = "typed": DiameterAnswer / DiameterRequest objects alternately; forms = "generic": the other shapes a
+    message handed to send_message() can have - a plain DiameterMessage as returned by DiameterMessage.load()
+    (what a relay forwards: answer, request), by DiameterMessage.convert(), or built with the DiameterMessage
+    constructor (answer, request), cyclically."""
+    from bromelia.base import DiameterAnswer, DiameterRequest, DiameterMessage, DiameterHeader
     import bromelia.avps as A
+    if forms == "generic":
+        kind = i % 5
+        if kind == 0:
+            m = DiameterMessage.load(node.app_answer(40 + tag * 8 + i, hbh=0x55000000 + tag * 16 + i))[0]
+        elif kind == 1:
+            m = DiameterMessage.load(node.app_request(40 + tag * 8 + i, hbh=0x56000000 + tag * 16 + i))[0]
+        elif kind == 2:
+            m = DiameterMessage.convert(make_message(tag + 4, 0))
+            m.header.hop_by_hop = 0x57000000 + tag * 16 + i
+        elif kind == 3:
+            m = DiameterMessage(DiameterHeader(flags=0x40, command_code=318, application_id=node.S6A,
+                                               hop_by_hop=0x58000000 + tag * 16 + i, end_to_end=0x59000000 + tag * 16 + i),
+                                avps=[A.SessionIdAVP(f"g{tag}{i};1;2".encode()), A.ResultCodeAVP(2001)])
+        else:
+            m = DiameterMessage(DiameterHeader(flags=0xc0, command_code=318, application_id=node.S6A,
+                                               hop_by_hop=0x5a000000 + tag * 16 + i, end_to_end=0x5b000000 + tag * 16 + i),
+                                avps=[A.SessionIdAVP(f"g{tag}{i};1;2".encode()), A.OriginHostAVP(node.LOCAL["host"])])
+        return m
     if i % 2 == 0:
         m = DiameterAnswer(command_code=316, application_id=node.S6A,
                            avps=[A.SessionIdAVP(f"m{tag}{i};1;2".encode()), A.ResultCodeAVP(2001)])
@@ -54,7 +79,7 @@ class Outbound(explore.Scenario):
     def driver(self, rt):
         P = self.params
         k, per, inbound, role = P["k"], P["per"], P.get("inbound", "none"), P.get("role", "server")
-        n = node.open_node(rt, role)
+        n = node.open_node(rt, role, transport=self.params.get("transport", "tcp"))
         if P.get("send_buffer"):
             # shrunk only after the handshake: the CEA itself (172 bytes) must fit
             n.SU.SEND_BUFFER_MAXIMUM_SIZE = P["send_buffer"]
@@ -67,7 +92,7 @@ class Outbound(explore.Scenario):
         T = shims.Thread
         plans = {}
         for t in range(k):
-            msgs = [make_message(t, i) for i in range(per)]
+            msgs = [make_message(t, i, P.get("forms", "typed")) for i in range(per)]
             plans[t] = msgs
             obs["submitted"][t] = [m.dump().hex() for m in msgs]
 
@@ -134,7 +159,7 @@ class Outbound(explore.Scenario):
     def oracle(self, rt):
         obs = rt.observations
         P = self.params
-        shape = f"k{P['k']}x{P['per']}:{P.get('inbound', 'none')}"
+        shape = f"k{P['k']}x{P['per']}:{P.get('inbound', 'none')}" + (":sctp" if P.get("transport") == "sctp" else "") + (":generic" if P.get("forms") == "generic" else "")
         if rt.verdict == "handshake-failed":
             return [("C05:handshake-failed", "the node did not reach Open in the deterministic prefix")]
         errs = []
@@ -215,7 +240,20 @@ def plan(tier):
     yield P(k=1, per=1, inbound="app-on-data"), 1
     yield P(k=1, per=3, batch=True, send_buffer=96, close_after=True), 0
     yield P(k=1, per=2, close_after=True), 1
+    # every form a submitted message can have (plain DiameterMessage objects: loaded, converted, constructed)
+    yield P(k=1, per=5, forms="generic"), 0
+    yield P(k=1, per=5, forms="generic", batch=True), 0
+    yield P(k=1, per=5, forms="generic", role="client"), 0
+    yield P(k=2, per=3, forms="generic"), (1 if thorough else 0)
+    # the SCTP transport classes (their own _write/_read over a fake pysctp socket on the same virtual network)
+    yield P(k=1, per=2, transport="sctp"), 1
+    yield P(k=1, per=1, inbound="app-on-data", transport="sctp", role="client"), 1
+    yield P(k=1, per=3, batch=True, send_buffer=96, close_after=True, transport="sctp"), 0
     if thorough:
+        yield P(k=2, per=1, transport="sctp"), 1
+        yield P(k=1, per=2, batch=True, send_buffer=96, transport="sctp", role="client"), 1
+        yield P(k=1, per=1, inbound="dwr", transport="sctp"), 1
+        yield P(k=1, per=2, close_after=True, transport="sctp"), 1
         yield P(k=1, per=3, batch=True, send_buffer=96, close_after=True), 1
         yield P(k=2, per=2, send_buffer=96, close_after=True), 1
         yield P(k=1, per=1, inbound="dwr-on-data"), 1
